@@ -53,6 +53,18 @@ func c02GenRules(rng *rand.Rand) (rs []*c01Rule) {
 		default:
 			text = "0.0.0.0 " + subj
 		}
+		if strings.HasPrefix(text, "||") || strings.HasPrefix(text, "@@||") {
+			// A rule that applies to some clients only (by address, by the
+			// name of the persistent client, or to everybody but one).
+			if k := rng.Intn(7); k < 3 {
+				mod := []string{"client=127.0.0.2", "client=kid", "client=~127.0.0.1"}[k]
+				if strings.Contains(text, "$") {
+					text += "," + mod
+				} else {
+					text += "$" + mod
+				}
+			}
+		}
 		place := []string{"block1", "block1", "block2", "allow", "custom"}[rng.Intn(5)]
 		if place == "allow" {
 			text = strings.TrimPrefix(text, "@@")
@@ -214,6 +226,23 @@ func c02GenAnswer(rng *rand.Rand, qname string, qtype uint16) (rrs []dns.RR) {
 	}
 	if rng.Intn(3) == 0 {
 		rng.Shuffle(len(rrs), func(i, j int) { rrs[i], rrs[j] = rrs[j], rrs[i] })
+	}
+	if rng.Intn(5) == 0 && len(rrs) > 0 {
+		// A signed answer as a validating resolver returns it: a signature
+		// right after each record set it covers, sometimes an NSEC.
+		var signed []dns.RR
+		for i, rr := range rrs {
+			signed = append(signed, rr)
+			last := i == len(rrs)-1 || rrs[i+1].Header().Name != rr.Header().Name || rrs[i+1].Header().Rrtype != rr.Header().Rrtype
+			if last {
+				signed = append(signed, &dns.RRSIG{Hdr: hdr(rr.Header().Name, dns.TypeRRSIG), TypeCovered: rr.Header().Rrtype, Algorithm: 13,
+					Labels: 3, OrigTtl: 60, Expiration: 1900000000, Inception: 1700000000, KeyTag: 4242, SignerName: "signer.invalid.", Signature: "c2lnbmF0dXJl"})
+			}
+		}
+		if rng.Intn(3) == 0 {
+			signed = append(signed[:1:1], append([]dns.RR{&dns.NSEC{Hdr: hdr(signed[0].Header().Name, dns.TypeNSEC), NextDomain: "z.invalid.", TypeBitMap: []uint16{dns.TypeA, dns.TypeRRSIG}}}, signed[1:]...)...)
+		}
+		rrs = signed
 	}
 
 	return rrs
@@ -438,7 +467,16 @@ func c02One(rep *verifkit.Report, vs *vkServer, env *c01Env, texts []string, qna
 	reqV := c01Decide(env, qname, qtype, src)
 	vs.Up.take()
 	vs.QLog.take()
-	resp, xerr := vkExchange(vs, src, tcp, qname, qtype)
+	signed := false
+	for _, rr := range ans {
+		if rr.Header().Rrtype == dns.TypeRRSIG {
+			signed = true
+		}
+	}
+	if signed {
+		rep.Class("signed_upstream_answers_asked_with_the_dnssec_ok_bit")
+	}
+	resp, xerr := vkExchangeDO(vs, src, tcp, qname, qtype, signed)
 	calls := vs.Up.take()
 	logged := vs.QLog.take()
 
